@@ -24,6 +24,9 @@ if ok:
     for f in ("patch.diff", "demo.py", "notes.md"):
         shutil.copy(os.path.join(src, f), dst)
     notes = open(os.path.join(src, "notes.md")).read()
-    json.dump({"property": prop, "origin": "independent sub-agent (saw only the property text and a scratch worktree)",
+    import re
+    base = re.sub(r"[a-z]$", "", prop)
+    rnd = {"": "", "b": " (second round)", "c": " (third round)", "d": " (fourth round)"}.get(prop[len(base):], "")
+    json.dump({"property": base, "origin": "independent sub-agent (saw only the property text and a scratch worktree)" + rnd,
                "needs": notes[:1200], "confirmed": {"demo_unpatched_rc": base_demo, "demo_patched_rc": mut_demo, "suite": summary[-1]},
-               "ran": f"tools/seed_import.py {prop} {m}; tools/seedtest.sh {prop}-{m}"}, open(os.path.join(dst, "meta.json"), "w"), indent=1)
+               "ran": f"tools/seed_import.py {prop} {m}; tools/seedfast.sh {prop}-{m} {base}"}, open(os.path.join(dst, "meta.json"), "w"), indent=1)
